@@ -183,11 +183,11 @@ func AverageStats(stats []*Stats) *Stats {
 		for _, stat := range stats {
 			stat.Lock()
 			value, ok := stat.values[k]
+			stat.Unlock()
 			if !ok {
 				continue
 			}
 			values = append(values, value)
-			stat.Unlock()
 		}
 		// make the average
 		avg := AverageValue(values...)
